@@ -152,7 +152,8 @@ def gen_direct(ctx, n, first_id):
         vals = [math.exp(r.uniform(-20, 20)) for _ in range(ne)]
         vecs = [[r.uniform(-1, 1) for _ in range(dim)] for _ in range(ne)]
         mu = [r.uniform(-3, 3) for _ in range(dim)]
-        where = r.choice(["none", "none", "stds", "mean", "vals", "vecs", "mu"])
+        where = r.choice(["none", "none", "stds", "mean", "vals", "vecs", "mu", "stds0", "vals0", "vals0"])
+        nonpos = [0.0, -0.0, -1.0, 5e-324, 1e-310, -1e-300, 2.3e-308]
         if where == "stds":
             stds[r.randrange(dim)] = r.choice(special)
         elif where == "mean":
@@ -161,6 +162,10 @@ def gen_direct(ctx, n, first_id):
             vals[r.randrange(ne)] = r.choice(special)
         elif where == "vecs" and ne:
             vecs[r.randrange(ne)][r.randrange(dim)] = r.choice(special)
+        elif where == "stds0":
+            stds[r.randrange(dim)] = r.choice(nonpos)
+        elif where == "vals0" and ne:
+            vals[r.randrange(ne)] = r.choice(nonpos)
         elif where == "mu":
             mu[r.randrange(dim)] = r.choice(special)     # (not gated by the code: see audit)
         cases.append({"id": first_id + k, "dim": dim, "kind": "direct:" + where,
@@ -266,7 +271,22 @@ def window_oracles(c, o, stats):
             if abs(d - (1.0 if a == b_ else 0.0)) > 1e-6:
                 bad.append("eigenvectors %d, %d are not orthonormal (inner product %r)" % (a, b_, d))
                 break
-    if wellcond and cutoff == 1.0 and gamma >= 0.05 and not bad:
+    # translation of the spectral part: mu = dm + gm + U (Lambda - I) U^T gm (rescaled, pre-centring means)
+    rs = o.get("rescale")
+    if rs and "panic" not in rs and not bad:
+        dm = [b2f(v) for v in rs["draw_mean"]]
+        gm = [b2f(v) for v in rs["grad_mean"]]
+        mu_i = [b2f(v) for v in cu["mu"]]
+        if all(fin(v) for v in dm + gm + mu_i):
+            dots = [math.fsum(u * g for u, g in zip(vecs[k], gm)) for k in range(len(vals))]
+            for i in range(dim):
+                want = dm[i] + gm[i] + math.fsum((vals[k] - 1.0) * vecs[k][i] * dots[k] for k in range(len(vals)))
+                sc = abs(dm[i]) + abs(gm[i]) + math.fsum(abs((vals[k] - 1.0) * vecs[k][i] * dots[k]) for k in range(len(vals))) + 1e-300
+                if abs(mu_i[i] - want) > 1e-9 * sc:
+                    bad.append("coordinate %d: translation of the spectral part %r, the estimate gives dm + gm + U (Lambda - I) U^T gm = %r" % (i, mu_i[i], want))
+                    break
+            stats["oracle_mu"] = stats.get("oracle_mu", 0) + 1
+    if wellcond and cutoff == 1.0 and gamma >= 0.99e-5 and not bad:
         # Riccati equation of the SPD geometric mean: S B S = A
         S = [[(1.0 if i == j else 0.0) + math.fsum((vals[k] - 1.0) * vecs[k][i] * vecs[k][j] for k in range(len(vals))) for j in range(dim)] for i in range(dim)]
         XT = [list(r_) for r_ in zip(*X)] if nd else []
@@ -297,6 +317,11 @@ def window_oracles(c, o, stats):
 def run_part(ctx, quick):
     prop = ctx.prop
     wc = gen_cases(ctx, 140 if quick else 1400)
+    # minimised failures found earlier run first (windows on which the pre-fix gate installed a zero eigenvalue)
+    import os
+    cp = os.path.join(os.path.dirname(os.path.abspath(__file__)), "lowrank_corpus.json")
+    for k, c0 in enumerate(json.load(open(cp))):
+        wc.append(dict(c0, id=len(wc)))
     dc = gen_direct(ctx, 80 if quick else 800, first_id=len(wc))
     cases = wc + dc
     outs, errs = run_harness_parallel("lowrank", cases)
@@ -341,10 +366,8 @@ def run_part(ctx, quick):
             impl_bad("%s: the estimator panicked: %s" % (c["kind"], o.get("panic") or o["adapt"]["panic"]), c)
             continue
         sb = scales_audit(after)
-        if "direct" in c and c["kind"] == "direct:mu":
-            sb = [x for x in sb]  # mu is not a scale
-        if sb and "direct" not in c:
-            impl_bad("%s window of %d draws leaves a degenerate transformation in use: %s" % (c["kind"], c["ndraws"], "; ".join(sb[:3])), c)
+        if sb:
+            impl_bad("%s window of %d draws leaves a degenerate transformation in use: %s" % (c["kind"], c.get("ndraws", 0), "; ".join(sb[:3])), c)
             continue
         if not changed and state_rows(after) != state_rows(before):
             impl_bad("%s: the transformation id did not move but its parameters did" % c["kind"], c)
